@@ -850,6 +850,23 @@ static RunResult cards_execute(const Plan &plan)
 		{
 			W.S.single_party = (int)i; BarnettSmartVTMF_dlog *v = W.P[i].vtmf.get();
 			W.P[i].vrhe.reset(new HooghSchoenmakersSkoricVillegasVRHE(v->p, v->q, v->g, v->h, W.G->fs, W.G->ss));
+			if (i == 0)
+			{
+				// C11: the published parameters of the rotation argument, of a commitment scheme and of the oblivious
+				// transfer survive export -> stream constructor -> export
+				std::ostringstream o1; W.P[0].vrhe->PublishGroup(o1); std::istringstream in(o1.str());
+				HooghSchoenmakersSkoricVillegasVRHE r2(in, W.G->fs, W.G->ss); std::ostringstream o2; r2.PublishGroup(o2);
+				if (o1.str() != o2.str() || !r2.CheckGroup()) W.violate("C11", "roundtrip_text_vrhe_group", "rotation-argument parameters change under export/import");
+				PedersenCommitmentScheme com(3 + (size_t)(plan.seed % 5), v->p, v->q, v->k, v->h, W.G->fs, W.G->ss);
+				std::ostringstream c1; com.PublishGroup(c1); std::istringstream cin2(c1.str());
+				PedersenCommitmentScheme com2(3 + (size_t)(plan.seed % 5), cin2, W.G->fs, W.G->ss); std::ostringstream c2; com2.PublishGroup(c2);
+				if (c1.str() != c2.str() || !com2.CheckGroup()) W.violate("C11", "roundtrip_text_com_group", "commitment parameters change under export/import");
+				NaorPinkasEOTP ot(v->p, v->q, v->g, W.G->fs, W.G->ss);
+				std::ostringstream t1; ot.PublishGroup(t1); std::istringstream tin(t1.str());
+				NaorPinkasEOTP ot2(tin, W.G->fs, W.G->ss); std::ostringstream t2; ot2.PublishGroup(t2);
+				if (t1.str() != t2.str() || !ot2.CheckGroup()) W.violate("C11", "roundtrip_text_ot_group", "oblivious-transfer parameters change under export/import");
+				W.res.cnt["probe.group_roundtrips"]++;
+			}
 		}
 	// ---- the script
 	for (size_t oi = 0; oi < plan.ops.size() && W.res.ok(); oi++)
